@@ -264,3 +264,69 @@ func VerifC02Keys() {
 	}
 	zz.Reach("end")
 }
+
+// VerifC02Measurement: the value of the top-level key m is a symbolic msgpack scalar: one
+// code byte from the integer / nil / bool / float32 / fixstr families followed by as many
+// symbolic bytes as that code needs (so every int8..int64 and uint8..uint64 value, both
+// fixint ranges, and a one-byte string). The write is accepted by both paths or by neither,
+// and both store the rows under the same measurement name.
+func VerifC02Measurement() {
+	var mval []byte
+	switch zz.Choice("m_encoding", 12) {
+	case 0:
+		c := zz.Byte("fixint")
+		zz.Assume(c <= 0x7f || c >= 0xe0)
+		mval = []byte{c}
+	case 1:
+		mval = append([]byte{0xcc}, zz.Bytes("u8", 1)...)
+	case 2:
+		mval = append([]byte{0xcd}, zz.Bytes("u16", 2)...)
+	case 3:
+		mval = append([]byte{0xce}, zz.Bytes("u32", 4)...)
+	case 4:
+		mval = append([]byte{0xcf}, zz.Bytes("u64", 8)...)
+	case 5:
+		mval = append([]byte{0xd0}, zz.Bytes("i8", 1)...)
+	case 6:
+		mval = append([]byte{0xd1}, zz.Bytes("i16", 2)...)
+	case 7:
+		mval = append([]byte{0xd2}, zz.Bytes("i32", 4)...)
+	case 8:
+		mval = append([]byte{0xd3}, zz.Bytes("i64", 8)...)
+	case 9:
+		mval = []byte{[]byte{0xc0, 0xc2, 0xc3}[zz.Choice("nil_or_bool", 3)]}
+	case 10:
+		s := zz.Byte("one_char_name")
+		zz.Assume(s >= 0x20 && s < 0x7f)
+		mval = []byte{0xa1, s}
+	default:
+		mval = []byte{0xa0} // empty string
+	}
+	b := []byte{0x82, 0xa1, 'm'}
+	b = append(b, mval...)
+	b = append(b, 0xa7, 'c', 'o', 'l', 'u', 'm', 'n', 's', 0x82, 0xa4, 't', 'i', 'm', 'e', 0x91,
+		0xd3, 0x00, 0x06, 0x0a, 0x24, 0x18, 0x1e, 0x40, 0x00, 0xa1, 'v', 0x91, 0x07)
+	typed := NewMessagePackDecoder(zerolog.Nop())
+	typed.SetTypedDecodeEnabled(true)
+	generic := NewMessagePackDecoder(zerolog.Nop())
+	generic.SetTypedDecodeEnabled(false)
+	r1, e1 := typed.Decode(append([]byte(nil), b...))
+	r2, e2 := generic.Decode(append([]byte(nil), b...))
+	zz.Assert((e1 == nil) == (e2 == nil), "turning the typed fast path on or off changes whether the write is accepted")
+	if e1 == nil && e2 == nil {
+		m1, m2 := "", ""
+		switch rec := r1.([]interface{})[0].(type) {
+		case *TypedColumnarRecord:
+			m1 = rec.Measurement
+			zz.Reach("fast-path-taken")
+		case *models.ColumnarRecord:
+			m1 = rec.Measurement
+		}
+		if rec, ok := r2.([]interface{})[0].(*models.ColumnarRecord); ok {
+			m2 = rec.Measurement
+		}
+		zz.Assert(zz.EqStr(m1, m2), "the typed and the generic path store the rows under different measurements")
+		zz.Reach("accepted")
+	}
+	zz.Reach("end")
+}
